@@ -9,6 +9,7 @@
 -/
 import Dirk.Model.Dkg
 import Dirk.Props.KernelsEq
+import Dirk.Lemmas.DkgProjection
 
 namespace Dirk.Dkg
 
@@ -54,5 +55,15 @@ example : (onPrepare { insts := [{ id := 1 }], peers := [1, 2], timeout := 10 } 
 theorem C16_kernel_is_source (c : Cluster) (name : Nat → String) (hinj : ∀ a b, name a = name b → a = b) (caller : Nat) :
     senderId c caller = Dirk.Gen.senderIdGen (c.peers.map (fun i => (i, name i))) (name caller) :=
   Dirk.senderId_eq_gen c name hinj caller
+
+/-- **C16 at history level (what the projection judge checks on the implementation).** From ANY history of handler calls
+    and clock ticks, deleting every message whose authenticated caller is not a configured peer changes neither the final
+    state of the cluster nor the reply to any remaining message; and each deleted message had been answered
+    `unknown sender`. -/
+theorem C16_projection (evs : List LifeJudge.Ev) (c : Cluster) :
+    (runEv c (evs.filter (fromPeer c.peers))).2 = (runEv c evs).2 ∧
+    (runEv c (evs.filter (fromPeer c.peers))).1 = (runEv c evs).1.filter (fun p => fromPeer c.peers p.1) ∧
+    (∀ p ∈ (runEv c evs).1, fromPeer c.peers p.1 = false → p.2 = .unknownSender) :=
+  ⟨(runEv_projection evs c).1, (runEv_projection evs c).2, runEv_non_peer_replies evs c⟩
 
 end Dirk.Dkg
